@@ -142,6 +142,15 @@ func allSpecs() []*HarnessSpec {
 		{Name: "k_vlen", Pkg: "trie", Property: "C10", Witness: 1,
 			Quick: []Grid{{"n": {3}, "lens": rng(0, 63)}, {"n": {4}, "lens": step(0, 255, 1)}},
 			Note:  "A16 (a hit carries a supplied value: every lookup reads it through VLenArray.get)"},
+		{Name: "k_vlen", Pkg: "trie", Property: "C08", Witness: 1,
+			Quick: []Grid{{"n": {3}, "lens": rng(0, 63)}},
+			Note:  "A16 (an accepted value list is stored so that every value can be read back)"},
+		{Name: "k_vlen", Pkg: "trie", Property: "C03", Witness: 1,
+			Quick: []Grid{{"n": {3}, "lens": rng(0, 63)}},
+			Note:  "A16"},
+		{Name: "k_vlen", Pkg: "trie", Property: "C09", Witness: 1,
+			Quick: []Grid{{"n": {3}, "lens": rng(0, 63)}},
+			Note:  "A16"},
 		{Name: "k_vlen", Pkg: "trie", Property: "C04", Witness: 1,
 			Quick: []Grid{{"n": {3}, "lens": rng(0, 63)}},
 			Note:  "A16 (scans read values through VLenArray.get)"},
@@ -168,7 +177,10 @@ func allSpecs() []*HarnessSpec {
 			Quick: []Grid{{"skel": append([]int{0, 1, 2, 7, 11}, step(100, 150, 5)...), "opt": {16, 9, 0}, "enc": {1}, "runs": {0}, "check": {1}, "lq": {0}},
 				// a returned trie keeps satisfying the guarantees while later builds run / after earlier ones
 				{"skel": {0, 2, 3, 105}, "opt": {16, 2}, "enc": {1}, "runs": {0}, "check": {1}, "lq": {0}, "other": {1, 2}},
-				{"skel": {0, 2, 105}, "opt": {16}, "enc": {1}, "runs": {0}, "check": {1}, "lq": {0}, "pre": {150}}},
+				{"skel": {0, 2, 105}, "opt": {16}, "enc": {1}, "runs": {0}, "check": {1}, "lq": {0}, "pre": {150}},
+				// accepted values: symbolic String16 values of symbolic lengths, and the empty-or-two-byte encoder
+				{"skel": {20, 21, 22}, "opt": {16, 0}, "enc": {2}, "runs": {0}, "check": {1}, "lq": {0}, "symv": {1}, "vl": {2}},
+				{"skel": {20, 21, 22}, "opt": {16, 0}, "enc": {8}, "runs": {0}, "check": {1}, "lq": {0}, "symv": {1}}},
 			Thorough: []Grid{{"skel": append([]int{0, 1, 2, 3, 4, 5, 6, 7, 8, 9, 10, 11}, step(100, 150, 1)...), "opt": optsDistinct, "enc": {1}, "runs": {0, 2}, "check": {1}, "lq": {0}}},
 			Note:     "accepted => correct: every key of an accepted skeleton key set is found (the C01 block on shapes with 257-bit nodes, short-node tables and their coincidences)"},
 		{Name: "l3_longrun", Pkg: "trie", Property: "C08", Witness: 1,
@@ -313,7 +325,7 @@ func apiSpecs() []*HarnessSpec {
 			lq3T = []int{0, 1, 2, 3, 4, 5}
 		}
 		// sweep family: growing prefixes of a fixed pseudo-random key list (shape/alignment diversity)
-		aligned := append(rng(300, 306), rng(310, 315)...)
+		aligned := append(append(rng(300, 306), rng(310, 315)...), rng(330, 333)...)
 		swQ, swT := append(step(100, 150, 1), aligned...), append(step(100, 150, 1), aligned...)
 		lqS := []int{0}
 		if len(p.lqQ) > 1 {
@@ -366,7 +378,7 @@ func apiSpecs() []*HarnessSpec {
 		if p.check == 14 {
 			// every indexed key as the query, all four integer widths: leaf byte counts that are
 			// not multiples of 8 (partial last word), 1..355 leaves
-			ak := l3Grid(14, append([]int{0, 1, 2, 4, 20, 21, 22}, step(100, 150, 7)...), []int{16, 0}, p.encs, []int{0, 2}, []int{0})
+			ak := l3Grid(14, append([]int{0, 1, 2, 4, 20, 21, 22, 330, 331, 332, 333}, step(100, 150, 7)...), []int{16, 0}, p.encs, []int{0, 2}, []int{0})
 			ak["allkeys"] = []int{1}
 			q3 = append(q3, ak)
 			akT := l3Grid(14, append(append([]int{0, 1, 2, 3, 4, 5, 6, 7, 20, 21, 22}, step(100, 150, 1)...), aligned...), p.small, p.encs, []int{0, 2, 3}, []int{0})
@@ -465,6 +477,7 @@ func apiSpecs() []*HarnessSpec {
 		Note: "String() on every build path: no panic, one line per node, leaf lines carry the retained (concrete) values in key order"})
 	out = append(out, &HarnessSpec{Name: "l3_api", Pkg: "trie", Property: "C19", Witness: 1,
 		Quick: []Grid{{"skel": {0, 1, 2, 3, 4, 5, 6, 7, 8, 12, 13, 14, 17, 18}, "opt": {16, 9}, "enc": {1}, "runs": {0, 2}, "check": {19}, "lq": {0}, "loaded": {0, 1}},
+			{"skel": {16}, "opt": {16, 9}, "enc": {1}, "runs": {0}, "check": {19}, "lq": {0}, "loaded": {0, 1}}, // thousands of nodes (ids of four and more digits)
 			{"skel": append(step(100, 150, 1), append(rng(300, 306), rng(310, 315)...)...), "opt": {16, 9}, "enc": {1}, "runs": {0}, "check": {19}, "lq": {0}, "loaded": {0}}},
 		Thorough: []Grid{{"skel": {0, 1, 2, 3, 4, 5, 6, 7, 8, 9}, "opt": optsDistinct, "enc": {1, 3}, "runs": {0, 1, 2, 3}, "check": {19}, "lq": {0}, "loaded": {0, 1}}},
 		Note:     "String() on skeleton tries incl. short-node tables and a 257-bit root"})
